@@ -3,7 +3,7 @@
 From Coq Require Import List Arith QArith Qminmax Lqa Lia Bool.
 From AIT Require Import Base.Qx Base.Mdp Base.MdpExec C02.Model C02.Spec C02.ProofsVec C02.ProofsCross
   C02.ProofsSched C02.ProofsProj C02.ProofsIP C02.ProofsPrunePw C02.ProofsEV C02.ProofsRTBSS C02.ProofsSchedAll
-  C04.Model C02.ModelWitness C02.ProofsWitness.
+  C04.Model C02.ModelWitness C02.ProofsWitness C02.ProofsWitnessTerm.
 Import ListNotations.
 Local Open Scope Q_scope.
 
@@ -178,6 +178,40 @@ Proof.
   rewrite (E0 h) in Lo. lra.
 Qed.
 Print Assumptions witness_run_exact.
+
+(* Termination.  With an oracle whose "witness b" answers are sound (b has the right dimension and the
+   candidate is strictly above every row found so far at b), the agenda loop of one action ends within
+   2*N iterations, N = number of cross-sum choices = |all_choices row| (the product of the sizes of the
+   projection lists): (N - |U|) + (N - |tried|) + |agenda| decreases by one in every iteration. *)
+Theorem witness_terminates : forall S row,
+  Forall (fun r => r <> []) row -> Forall (wfl S) row ->
+  (forall o i e, nth_error (nth o row []) i = Some e -> obs e = [i]) ->
+  forall (oracle : nat -> nat -> list vec -> vec -> option vec) t a,
+  (forall Uv cand b, oracle t a Uv cand = Some b -> length b = S /\ forall u, In u Uv -> dot u b < dot cand b) ->
+  forall fuel, (2 * length (all_choices row) < fuel)%nat ->
+  exists U, wit_action oracle fuel t a S row = Some U.
+Proof. exact wit_action_terminates_lemma. Qed.
+Print Assumptions witness_terminates.
+
+(* Totality and exactness together: for a sound and eps-complete oracle, for every POMDP and horizon
+   there is a fuel with which the Witness run ends, and its surface is expectimax up to wit_err. *)
+Theorem witness_total : forall (prune : vlist -> vlist),
+  (forall l e, In e (prune l) -> In e l) ->
+  (forall l, l <> [] -> prune l <> []) ->
+  (forall S l b, l <> [] -> wfl S l -> nonneg b -> length b = S -> vbest (prune l) b == vbest l b) ->
+  forall m, wf_pomdp1 m -> obs_clean m ->
+  forall eps, 0 <= eps ->
+  forall (oracle : nat -> nat -> list vec -> vec -> option vec),
+  (forall t a Uv cand, oracle t a Uv cand = None ->
+     forall b, nonneg b -> length b = nS (pm m) -> exists u, In u Uv /\ dot cand b <= dot u b + eps * qsum b) ->
+  (forall t a Uv cand b, oracle t a Uv cand = Some b ->
+     length b = nS (pm m) /\ forall u, In u Uv -> dot u b < dot cand b) ->
+  forall h, exists fuel vf,
+    wit_run oracle prune fuel m h = Some vf /\
+    forall b, nonneg b -> length b = nS (pm m) ->
+      EV m h b - wit_err m eps h * qsum b <= vbest (last vf []) b /\ vbest (last vf []) b <= EV m h b.
+Proof. exact wit_run_total_lemma. Qed.
+Print Assumptions witness_total.
 
 (* The "no witness" answers of the real LP are checked, not trusted: such an answer is accepted only
    with convex weights over the rows that certify it (none_cert_ok; the dual of the witness LP). *)
